@@ -31,10 +31,10 @@ bool CheckInputScripts(const CTransaction& tx, TxValidationState& state, const C
 
 namespace {
 
-std::unique_ptr<const BasicTestingSetup> g_setup;
-void init13() { if (!g_setup) g_setup = MakeNoLogFileContext<const BasicTestingSetup>(ChainType::REGTEST); }
+// function-local static: constructed at run time, hence destroyed BEFORE the globals (gArgs) its destructor uses
+void init13() { static const auto setup = MakeNoLogFileContext<const BasicTestingSetup>(ChainType::REGTEST); (void)setup; }
 
-enum class CoinKind { P2PKH, P2WPKH, P2SH_P2WPKH, P2TR, P2PK, BARE_CLTV, BARE_CSV, WSH_MULTISIG, BARE_MULTISIG1, WSH_TRUE, KINDS };
+enum class CoinKind { P2PKH, P2WPKH, WSH_MULTISIG, P2TR, BARE_CLTV, P2SH_P2WPKH, BARE_MULTISIG1, BARE_CSV, P2PK, WSH_TRUE, KINDS };
 
 struct WorldCoin {
     COutPoint op;
@@ -231,7 +231,8 @@ VERIF_TARGET(c13_checkinputs, init13, 96, 900,
                 if (done) t.vin[i].scriptSig = out;
                 return done;
             };
-            if (defect == 0 || defect == 5) { // corrupted signature
+            const bool is_msig = c.kind == CoinKind::WSH_MULTISIG || c.kind == CoinKind::BARE_MULTISIG1;
+            if (defect == 0 || (defect == 5 && !is_msig)) { // corrupted signature
                 dn = "bad-sig";
                 if (auto* sg = first_sig()) { if (sg->size() > 12) (*sg)[10] ^= 0x01; else dn.clear(); }
                 else if (!edit_scriptsig_sig([](std::vector<unsigned char>& d) { d[10] ^= 0x01; return true; })) dn.clear();
@@ -240,7 +241,7 @@ VERIF_TARGET(c13_checkinputs, init13, 96, 900,
                 if (c.kind == CoinKind::P2TR) dn.clear();
                 else if (auto* sg = first_sig()) { if (!MakeLaxDer(*sg)) dn.clear(); }
                 else if (!edit_scriptsig_sig([](std::vector<unsigned char>& d) { return MakeLaxDer(d); })) dn.clear();
-            } else if (defect == 2) { // multisig: repeated signature / non-null dummy; others: extra scriptSig element
+            } else if (defect == 2 || defect == 5) { // multisig: repeated signature / non-null dummy; others: extra scriptSig element
                 if (c.kind == CoinKind::WSH_MULTISIG || c.kind == CoinKind::BARE_MULTISIG1) {
                     const bool rep = c.kind == CoinKind::WSH_MULTISIG && s.boolean();
                     dn = rep ? "multisig-repeated-sig" : "multisig-nonnull-dummy";
